@@ -14,6 +14,9 @@ Case kinds (the ``kind`` field of every failure input, enough to replay one case
                "extra-columns": every operation / ordered pair on tables with two further text columns that no operation
                names (quotes, outer blanks, numbers as text, n/a): besides the meaning oracles, clause
                C17.frame.unnamed_columns_untouched - columns the parameters do not name come back cell for cell unchanged
+               "repeated-keys": remap_columns whose map_list lists a key in more than one row (every order of the rows, keys
+               missing from the data, data codes missing from the map, integer sources); the first row listed for a key is in force
+  keymap       KeyMap.update / KeyMap.remap used directly with such rows (also fully equal rows, two update calls)
   history      one op list, 1-3 tables, one processing order through ONE Dispatcher vs. a fresh one per table
   invalid      an op list that must be rejected by RemodelerValidator with messages
   cli_invalid  the same through run_remodel.main: ValueError before anything is executed / touched
@@ -253,7 +256,10 @@ def o_remap_columns(t, p):
     for entry in p["map_list"]:
         k = tuple(text_json(x) for x in entry[:m])
         if k in keymap:
-            return ("unspec", "duplicate key in map_list")
+            # a key listed again: the map holds the k UNIQUE keys (PARAMS description of map_list; KeyMap: "a map of unique
+            # column values"); KeyMap._handle_update documents that only a NEW key adds a row to the map, a key seen before
+            # is just counted -> the FIRST row listed for a key is the one that is kept, whatever follows it
+            continue
         keymap[k] = [text_json(x) for x in entry[m:]]
     si = [cols.index(c) for c in src]
     for r in rows:
@@ -797,7 +803,59 @@ def eval_cli_invalid(payload):
     return True, fails
 
 
-EVAL = {"meaning": eval_meaning, "history": eval_history, "invalid": eval_invalid, "cli_invalid": eval_cli_invalid}
+def eval_keymap(payload):
+    """the look-up table behind remap_columns used directly: KeyMap(key_cols, target_cols), one or two update() calls with
+    rows in which a key may occur again (also as a fully equal row, which the JSON specification of the operation does not
+    allow), then remap() of a text table.  Oracle = a plain dict filled row by row: a key that is already in the map keeps
+    its row; every row of the data gets the target values of ITS key, rows whose key is not in the map get n/a and their row
+    numbers are returned (remap docstring); the caller's table is not modified (remap returns a NEW dataframe); a second
+    remap of the same table gives the same answer"""
+    from hed.tools.analysis.key_map import KeyMap
+    inp = dict(copy.deepcopy(payload), env=env_note())
+    key_cols, target_cols = list(payload["key_cols"]), list(payload["target_cols"])
+    fails = []
+    d = {}
+    for u in payload["updates"]:
+        for row in u["rows"]:
+            rec = dict(zip(u["cols"], row))
+            k = tuple(rec.get(c, "n/a") for c in key_cols)
+            if k not in d:
+                d[k] = [rec.get(c, "n/a") for c in target_cols]
+    data = payload["data"]
+    exp_rows, exp_missing = [], []
+    for i, row in enumerate(data["rows"]):
+        rec = dict(zip(data["cols"], row))
+        hit = d.get(tuple(rec[c] for c in key_cols))
+        if hit is None:
+            exp_missing.append(i)
+        exp_rows.append(list(row) + (list(hit) if hit is not None else ["n/a"] * len(target_cols)))
+    expected = {"cols": list(data["cols"]) + target_cols, "rows": exp_rows, "missing": exp_missing}
+    try:
+        km = KeyMap(key_cols, target_cols, name="c17")
+        for u in payload["updates"]:
+            km.update(pd.DataFrame([list(r) for r in u["rows"]], columns=list(u["cols"])))
+        df = pd.DataFrame([list(r) for r in data["rows"]], columns=list(data["cols"]))
+        df0 = df.copy(deep=True)
+        outs = []
+        for _ in range(2):
+            new, missing = km.remap(df)
+            outs.append({"cols": [str(c) for c in new.columns],
+                         "rows": [[text(cell(v)) for v in r] for r in new.itertuples(index=False, name=None)],
+                         "missing": [int(i) for i in missing]})
+    except Exception as e:
+        fails.append(("C17.complete.no_exception", inp, {"exception": type(e).__name__, "message": str(e)[:200]}, expected))
+        return True, fails, []
+    if outs[0] != expected:
+        fails.append(("C17.meaning.remap_columns", inp, outs[0], expected))
+    elif outs[1] != outs[0]:
+        fails.append(("C17.history.order_independent", inp, outs[1], outs[0]))
+    if not frames_identical(df, df0):
+        fails.append(("C17.frame.input_table_unchanged", inp, js_view(view(df)), js_view(view(df0))))
+    return True, fails, ["keymap"]
+
+
+EVAL = {"meaning": eval_meaning, "history": eval_history, "invalid": eval_invalid, "cli_invalid": eval_cli_invalid,
+        "keymap": eval_keymap}
 
 
 def eval_chunk(chunk):
@@ -1362,6 +1420,145 @@ def pair_cases(rng, n_tables):
     return cases
 
 
+# ---- remap_columns / KeyMap: map lists in which a key occurs in more than one row ------------------------------------------
+# (source columns, destination columns, integer sources)
+REPKEY_CONFIGS = [
+    (["x"], ["p"], None),
+    (["x"], ["p", "q"], None),
+    (["x", "y"], ["p"], None),
+    (["y", "x"], ["q", "p"], None),          # sources listed in another order than the table has them
+    (["x"], ["p"], ["x"]),
+    (["x", "y"], ["p", "q"], ["x"]),
+]
+# how often the 1st, 2nd, ... distinct key is listed (rows of one map = the sum)
+REPKEY_SHAPES = [(1, 1, 1), (2, 1), (2, 1, 1), (3, 1), (2, 2), (2, 1, 1, 1), (1, 2, 1)]
+REPKEY_DEST = [["A", "B", "C", "D", "E", "F"], ["u", "v", "w", "s", "t", "r"]]
+
+
+def repkey_pool(src, ints, k):
+    """the distinct keys (dicts column -> JSON value) a map can list, and codes / code combinations that no map lists"""
+    two = len(src) > 1
+    if ints:
+        xs = [1, 2, 3, 4] if k % 2 == 0 else ["1", "2", "3", "4"]      # JSON numbers or the same integers written as text
+        x_other = ["7", "n/a"]
+    else:
+        xs = ["a", "b", "c", "n/a"]
+        x_other = ["zz", "1"]
+    if not two:
+        return [{"x": v} for v in xs], [{"x": v} for v in x_other]
+    keys = [{"x": xs[0], "y": "a"}, {"x": xs[0], "y": "b"}, {"x": xs[1], "y": "a"}, {"x": xs[2] if ints else "n/a", "y": "b"}]
+    other = [{"x": xs[1], "y": "b"}, {"x": x_other[0], "y": "a"}, {"x": xs[0], "y": "n/a"}, {"x": "n/a", "y": "a"}]
+    return keys, other
+
+
+def repkey_maps(rng, src, dst, ints, quick, k0):
+    """(map_list, distinct keys listed) - for every shape: the base rows (key i listed shape[i] times, every ROW with destination
+    values of its own so that any row taken for another shows) in every order of the rows (<=4 rows; a seeded sample beyond /
+    in the quick tier).  Variants: 'distinct' - all destination values differ; 'partly_equal' (two destinations) - a row that
+    lists a key again repeats the first destination value of that key's first row and differs in the second; 'same_text' (one
+    destination) - the row listed again has the number 2 where the first has the text "2" (distinct rows for the JSON
+    specification, equal text in the table)"""
+    out = []
+    k = k0
+    for shape in REPKEY_SHAPES:
+        for variant in ("distinct", "partly_equal" if len(dst) == 2 else "same_text"):
+            k += 1
+            keys, _ = repkey_pool(src, ints, k)
+            rows = []
+            first_of = {}
+            for ki, times in enumerate(shape):
+                for t in range(times):
+                    i = len(rows)
+                    dest = [REPKEY_DEST[d][i] for d in range(len(dst))]
+                    if t == 0:
+                        first_of[ki] = i
+                        if variant == "same_text" and times > 1:
+                            dest[0] = "2"
+                    elif variant == "partly_equal":
+                        dest[0] = rows[first_of[ki]][len(src)]
+                    elif variant == "same_text" and t == 1:
+                        dest[0] = 2
+                    rows.append([keys[ki][c] for c in src] + dest)
+            if variant != "distinct" and max(shape) == 1:
+                continue
+            perms = list(itertools.permutations(range(len(rows))))
+            cap = 12 if quick else 60
+            if len(perms) > cap and (quick or len(rows) > 4):
+                perms = [perms[0], perms[-1]] + rng.sample(perms[1:-1], cap - 2)
+            for perm in perms:
+                out.append(([copy.deepcopy(rows[i]) for i in perm], [keys[ki] for ki in range(len(shape))]))
+    return out
+
+
+def repkey_table(src, ints, k, listed, kind):
+    """'all': every key of the pool (listed by the map or not) + codes no map lists + an n/a row; 'sub': only keys the map
+    lists, one of them twice, one of them left out (a key missing from the data); 'none': only codes the map does not list.
+    A column z (and y, when it is not a source) rides along."""
+    keys, other = repkey_pool(src, ints, k)
+    if kind == "all":
+        recs = keys[k % len(keys):] + keys[:k % len(keys)] + other + [keys[0]]
+    elif kind == "sub":
+        sub = [r for i, r in enumerate(listed) if len(listed) == 1 or i != k % len(listed)]
+        recs = sub[::-1] + sub[:1] + sub
+    else:
+        recs = other + other[:1]
+    cols = [["x", "y", "z"], ["z", "y", "x"], ["y", "z", "x"]][k % 3]
+    zs = ["b", "n/a", "1", "a", "1.0"]
+    rows = []
+    for i, r in enumerate(recs):
+        rec = {"x": str(r["x"]), "y": str(r.get("y", ["a", "n/a", "b"][i % 3])), "z": zs[(i + k) % len(zs)]}
+        rows.append([rec[c] for c in cols])
+    return {"cols": cols, "rows": rows}
+
+
+REPKEY_COMBOS = [("all", True), ("sub", False), ("all", False), ("none", True), ("sub", True), ("none", False)]
+
+
+def repkey_cases(rng, quick):
+    """remap_columns through the validator and the Dispatcher (kind meaning), the same operation over three tables in several
+    orders through one Dispatcher (kind history), and KeyMap used directly (kind keymap)"""
+    cases = []
+    k = 0
+    for src, dst, ints in REPKEY_CONFIGS:
+        maps = repkey_maps(rng, src, dst, ints, quick, k)
+        for j, (ml, listed) in enumerate(maps):
+            k += 1
+            combos = [REPKEY_COMBOS[(k + d) % len(REPKEY_COMBOS)] for d in ((0, 2) if quick else range(len(REPKEY_COMBOS)))]
+            for kind, ignore in combos:
+                p = {"source_columns": list(src), "destination_columns": list(dst), "map_list": copy.deepcopy(ml),
+                     "ignore_missing": ignore}
+                if ints:
+                    p["integer_sources"] = list(ints)
+                cases.append({"kind": "meaning", "ops": [op_dict("remap_columns", p)],
+                              "table": repkey_table(src, ints, k, listed, kind), "part": "repeated-keys"})
+            if j % (16 if quick else 4) == 0:
+                p = {"source_columns": list(src), "destination_columns": list(dst), "map_list": copy.deepcopy(ml),
+                     "ignore_missing": True}
+                if ints:
+                    p["integer_sources"] = list(ints)
+                tset = [repkey_table(src, ints, k + d, listed, kind) for d, kind in enumerate(("all", "sub", "none"))]
+                for s in (SEQS_QUICK[3:7] if quick else SEQS_ALL):
+                    cases.append({"kind": "history", "ops": [op_dict("remap_columns", p)], "tables": tset, "sequence": s,
+                                  "part": "repeated-keys"})
+            if ints or j % (2 if quick else 1):
+                continue
+            # KeyMap directly: text rows; the rows of the map given in one update or split over two; a fully equal row added;
+            # the target columns present in the update or absent (then n/a)
+            rows = [[str(v) for v in r] for r in ml]
+            cols = list(src) + list(dst)
+            data = repkey_table(src, None, k, listed, "all" if j % 4 else "sub")
+            cut = 1 + (k % (len(rows) - 1)) if len(rows) > 1 else 1
+            variants = [[{"cols": cols, "rows": rows}],
+                        [{"cols": cols, "rows": rows[:cut]}, {"cols": cols, "rows": rows[cut:] + rows[:1]}],
+                        [{"cols": cols, "rows": rows + [rows[-1]]}]]
+            if j % 6 == 0:
+                variants.append([{"cols": list(src), "rows": [r[:len(src)] for r in rows]}])
+            for ups in variants:
+                cases.append({"kind": "keymap", "key_cols": list(src), "target_cols": list(dst), "updates": ups, "data": data,
+                              "part": "repeated-keys"})
+    return cases
+
+
 def build_cases(w):
     rng = w.rng
     quick = w.quick
@@ -1407,6 +1604,9 @@ def build_cases(w):
     n_pairs = len(cases) - n_single - n_comp
     cases += extra_column_cases(rng, singles, quick)
     n_extra = len(cases) - n_single - n_comp - n_pairs
+    rep = repkey_cases(rng, quick)
+    cases += rep
+    rep_counts = {kd: sum(1 for c in rep if c["kind"] == kd) for kd in ("meaning", "history", "keymap")}
     # ---- history
     seqs = SEQS_QUICK if quick else SEQS_ALL
     n0 = len(cases)
@@ -1443,7 +1643,7 @@ def build_cases(w):
             cases.append({"kind": "cli_invalid", "why": why + " (second, after a valid operation)", "ops": [copy.deepcopy(good)] + copy.deepcopy(ops)})
     n_inv = len(cases) - n0
     return cases, {"param_sets": counts, "single": n_single, "composed": n_comp, "pairs": n_pairs, "history": n_hist, "invalid": n_inv,
-                   "extra": n_extra}
+                   "extra": n_extra, "repkeys": rep_counts}
 
 
 def sig(p):
@@ -1504,6 +1704,17 @@ def run(w: Workload):
                  "C17.frame.unnamed_columns_untouched (row-preserving operations: against the input table alone)"
                  % (4 if w.quick else 10, 6 if w.quick else 30, 3 if w.quick else 10, 1 if w.quick else 3, len(EXTRA_TEXT)),
            exhaustive=False)
+    w.part("remap_columns / KeyMap with a key listed in more than one row of the map", cases=sum(info["repkeys"].values()),
+           bound="%d source/destination configurations (1-2 sources in table order and reversed, 1-2 destinations, with and without "
+                 "integer_sources, integer keys as JSON numbers and as text) x %d shapes (how often each of 2-4 distinct keys is listed: %s) "
+                 "x destination variants (every row its own values; listed-again row partly equal / equal as text) x every order of the "
+                 "rows of the map (all n! up to 4 rows in the thorough tier, identity + reverse + seeded sample otherwise) x tables holding "
+                 "every key of the pool + codes no map lists + n/a ('all'), only listed keys with one left out ('sub'), only unlisted "
+                 "codes ('none') x ignore_missing; oracle: a plain dict filled row by row in which a key already present keeps its "
+                 "row; unlisted codes give n/a destinations and, with ignore_missing false, the documented ValueError. %s; the "
+                 "keymap cases call KeyMap.update (rows in one call / split over two calls / with a fully equal row / without target "
+                 "columns) and KeyMap.remap directly and also compare the returned list of unmapped row numbers"
+                 % (len(REPKEY_CONFIGS), len(REPKEY_SHAPES), REPKEY_SHAPES, info["repkeys"]), exhaustive=False)
     w.part("history / frame: one Dispatcher, 1-3 tables, every processing order", cases=info["history"],
            bound="sequences of length <=3 over 3 tables with different column sets" + (" (8 sequences)" if w.quick else " (all 39)"),
            exhaustive=not w.quick)
@@ -1515,11 +1726,13 @@ def run(w: Workload):
         "pandas semantics beyond the enumerated tables; tables with 0 rows; cell values outside {a,b,n/a,1,1.0} (+ numeric onsets/durations)",
         "summary operations and HED-dependent operations (outside the property)",
         "'n/a' used as a remove_value / event_code / factor value (undocumented whether it matches an n/a cell); "
-        "remap_columns with overlapping source/destination columns, duplicate keys in map_list, or a missing key whose "
-        "destination column already exists; integer_sources on non-integer text; copy_columns naming onset/duration/anchor",
+        "remap_columns with overlapping source/destination columns, or a missing key whose "
+        "destination column already exists; quotes inside remap keys (KeyMap strips them); integer_sources on non-integer text; copy_columns naming onset/duration/anchor",
         "tables that lack a column the operation names, except where the docstring documents the exception",
     ]
     w.assumptions += [
+        "remap_columns: of several map_list rows with the same key the FIRST is the one in force (map_list is described as the k "
+        "unique keys; KeyMap._handle_update documents that only a new key adds a row, a key seen before is only counted)",
         "tables are built with the same pandas.read_csv call as Dispatcher.get_data_file (typed columns as the CLI sees them)",
         "a JSON number in remove_values/event_code matches numeric cells, a JSON string matches text cells",
         "PYTHONHASHSEED is pinned to 0 by re-executing the workload (KeyMap keys are Python string hashes)",
